@@ -589,9 +589,16 @@ class C15(PropBase):
                     for um in f.get("unloaded_modules") or []:
                         for o in um["offsets"]:
                             yield "threads[%d].frames[%d].unloaded_modules.offsets" % (ti, fi), o
+        wide = 0
         for where, v in addrs(doc):
+            wide += bool(width32 and isinstance(v, str) and len(v) > 10)
             if v is not None and not addr_ok(v, width32):
                 return "%s = %r is not padded to the platform's pointer width (%s)" % (where, v, "32-bit" if width32 else "64-bit/unknown")
+        if profile == self.profiles[0]:
+            w32 = self.__dict__.setdefault("_wide32", {"reports_32bit": 0, "reports_32bit_with_address_above_2^32": 0, "addresses_above_2^32": 0})
+            w32["reports_32bit"] += bool(width32)
+            w32["reports_32bit_with_address_above_2^32"] += bool(wide)
+            w32["addresses_above_2^32"] += wide
         # possible_bit_flips[].confidence: the printed decimal must denote exactly the binary32 value (f32::to_bits from the
         # ProcessState), lie in [0,1], and be a shortest round-tripping decimal (what serde_json's ryu writer promises)
         flips = ci.get("possible_bit_flips") or []
@@ -832,6 +839,7 @@ class C15(PropBase):
                         out.append({"case": ctx["cases"][i], "profile": prof, "found_input": True, "what": what,
                                     "model": mview[max(0, j - 80):j + 120], "impl": view[max(0, j - 80):j + 120]})
         ctx["info"]["member_coverage_reports_with_member_present"] = dict(sorted(self.__dict__.get("_cov", {}).items()))
+        ctx["info"]["address_display_32bit_platforms"] = self.__dict__.get("_wide32", {})
         ctx["info"]["traces_validated_against_impl"] = compared
         ctx["info"]["correspondence_mismatches"] = mism
         ctx["info"]["pretty_compared_with_print_json_bytes"] = pretty_whole.get(True, 0)
